@@ -121,7 +121,7 @@ func Binding(k keeper.Keeper, ctx sdk.Context, tag, svc string, provider, owner 
 	vf.Assume(err == nil)
 	vf.Assume(types.ValidatePricing(p) == nil)
 	for _, pr := range p.PromotionsByTime { // what is stored went through the protobuf codec: years 1..9999
-		vf.Assume(vf.And(!pr.StartTime.Before(time.Time{}), !pr.EndTime.Before(time.Time{})))
+		vf.Assume(vf.All(!pr.StartTime.Before(time.Time{}), !pr.EndTime.Before(time.Time{}), !pr.StartTime.After(vf.MaxTimestamp()), !pr.EndTime.After(vf.MaxTimestamp())))
 	}
 	if hugeMode {
 		vf.Assume(p.Price.AmountOf(Denom).LT(two64()))
